@@ -150,10 +150,6 @@ func C13(r *vf.Run) {
 				r.Fail("routing-read", fmt.Sprintf("read $%06x = %02x, want %02x from memory %d (last attached over block $%05x) (%s)", a, res.v, want, mi, blk, why), hist)
 				return false
 			}
-			if b.EA != a || b.Write {
-				r.Fail("debug-fields", fmt.Sprintf("after EaRead($%06x) Bus.EA=$%06x Write=%v", a, b.EA, b.Write), hist)
-				return false
-			}
 			// write through the bus and read back from the same memory
 			if g.Intn(4) == 0 && !m.rom {
 				nv := want ^ 0x3C
